@@ -4,6 +4,7 @@ import DimodProofs.C01Samples
 import DimodProofs.C01Dqm
 import DimodProofs.C01Witness
 import DimodProofs.C01Py
+import DimodProofs.C01Vars
 
 /-! # C01 — energy/energies is the value of the model's own polynomial at the sample
 
@@ -56,6 +57,30 @@ theorem energies_labelled (m : QMB R) (hlen : ∀ a, m.adj = some a → a.length
       cyEnergies m ml samples sl = .ok (samples.map fun row => polyEval m.off m.lin m.iterQuadratic (pick row q)) := by
   obtain ⟨q, hq⟩ := qmToSample_total ml sl hall
   exact ⟨q, hq, (qmToSample_ok ml sl q hq).2, cyEnergies_eq m hlen ml sl samples hrows q hq⟩
+
+/-- **the column used for a model variable is the column labelled with that variable**, for the array back-ends as coded:
+    `qm_to_sample[si] = labels.index(self.variables.at(si))` on two sparse `cyVariables` objects (`at`: `_index_to_label` with
+    the identity as default; `index`: `count`, then the `_is_range()` fast path or `_label_to_index.get(v, v)`) equals the
+    resolution by label lists, whatever the order in which the model stores its variables (e.g. `[2, 0, 1]`) and whatever
+    the sample labels are (exactly `0..k−1` — unlabelled arrays, sorted dict keys — or anything else); hence
+    `energies_labelled` applies to `energies` as coded -/
+theorem energies_column_is_label (m : QMB R) (mv sv : VState) (hs : sv.Inv) (samples : List (List R)) :
+    qmToSampleV mv sv = qmToSample mv.abs sv.abs ∧
+    cyEnergiesV m mv samples sv = cyEnergies m mv.abs samples sv.abs :=
+  ⟨qmToSampleV_eq mv sv hs, cyEnergiesV_eq m mv sv hs samples⟩
+
+/-- … spelled out: with every model label among the sample labels, model variable `u` is read from column `q[u]`, and
+    `q[u]` is the position of `u`'s label in the list of sample labels -/
+theorem energies_as_coded (m : QMB R) (hlen : ∀ a, m.adj = some a → a.length = m.lin.length)
+    (mv sv : VState) (hs : sv.Inv) (samples : List (List R)) (hrows : ∀ r ∈ samples, r.length = sv.abs.length)
+    (hall : ∀ v ∈ mv.abs, v ∈ sv.abs) :
+    ∃ q, qmToSampleV mv sv = .ok q ∧
+      (∀ u, u < mv.abs.length → sv.abs[q.getD u 0]? = some (mv.abs.getD u (.int 0))) ∧
+      cyEnergiesV m mv samples sv = .ok (samples.map fun row => polyEval m.off m.lin m.iterQuadratic (pick row q)) := by
+  obtain ⟨q, hq, hidx, hen⟩ := energies_labelled m hlen mv.abs sv.abs samples hrows hall
+  refine ⟨q, by rw [qmToSampleV_eq mv sv hs]; exact hq, ?_, by rw [cyEnergiesV_eq m mv sv hs]; exact hen⟩
+  intro u hu
+  exact (indexOf?_spec sv.abs _ _ (hidx u hu)).1
 
 /-- A sample that omits one of the model's variables is rejected (`ValueError`), not evaluated. -/
 theorem energies_missing_rejected (m : QMB R) (ml sl : List Label) (samples : List (List R))
@@ -245,6 +270,11 @@ example : ({ lin := [1, 2], adj := some [[(1, 3)], [(0, 3), (1, 4)]], off := 0 }
     | 0 => simp [QMB.nbh] at h; obtain ⟨rfl, rfl⟩ := h; simp [QMB.nbh]
     | 1 => simp [QMB.nbh] at h; rcases h with ⟨rfl, rfl⟩ | ⟨rfl, rfl⟩ <;> simp [QMB.nbh]
     | (u+2) => simp [QMB.nbh] at h
+
+/-- model variables stored as `[2, 1, 0]` (sparse maps), linear biases 1, 2, 4, sample `[10, 20, 30]` labelled `0, 1, 2` on the range fast path -/
+example : cyEnergiesV ({ lin := [1, 2, 4], adj := none, off := 0 } : QMB Rat)
+    { i2l := [(0, .int 2), (2, .int 0)], l2i := [(.int 2, 0), (.int 0, 2)], stop := 3 } [[10, 20, 30]]
+    { i2l := [], l2i := [], stop := 3 } = .ok [110] := by decide +kernel
 
 /-- the 3-cycle of label orders through the repaired `as_samples` -/
 example : (asSamples C01Witness.twoDicts).toOption = some ([[3, 1, 2], [3, 1, 2]], [C01Witness.a, C01Witness.b, C01Witness.c]) :=
